@@ -45,10 +45,10 @@ example : (walkH prog cif2).1.map (·.2) =
 -- invocation 14 of the all-continue walk is frame_start f of block b2, with the handle [1,0]
 theorem ac14 : (walkH allCont cif2).1[14]? = some (.frameStart f, .cont [1, 0]) := by rfl
 example : Res cif2 (.frameStart f, .cont [1, 0]) :=
-  C14_handles_are_elements allCont cif2 _ (List.mem_of_getElem? ac14)
+  (C14_handles_are_elements allCont cif2).2.2.2.2.2 _ (List.mem_of_getElem? ac14)
 -- … which unfolds to: not a data block, and the path denotes a container of code f
 example : [1, 0].length ≠ 1 ∧ ∃ ct, lookup cif2 [1, 0] = some ct ∧ ct.code = f :=
-  C14_handles_are_elements allCont cif2 _ (List.mem_of_getElem? ac14)
+  (C14_handles_are_elements allCont cif2).2.2.2.2.2 _ (List.mem_of_getElem? ac14)
 
 -- ---- C14_handle_queries: applied -------------------------------------------------------------------------------------------------------
 
@@ -138,5 +138,18 @@ example : fakeLog.map (·.2) ≠ ((walkH allCont cif2).1.take 12).map (·.2) := 
 example : ∃ l pk nm v, lookupLoop cif2 [1, 0] 0 = some l ∧ l.packets[1]? = some pk ∧ pk[0]? = some (nm, v)
     ∧ (Ev.item _s .unk) = .item nm v ∧ qLoopCategory cif2 [1, 0] 0 = some l.category ∧ qLoopNames cif2 [1, 0] 0 = some l.names :=
   ⟨_, _, _, _, rfl, rfl, rfl, rfl, rfl, rfl⟩
+
+-- ---- after the repair (gQ2): the restated `C14_handles_are_elements` refutes `fakeLog` ------------------------------------------------
+-- conjunct 1 (Sublist of the positional traversal): the handles of `fakeLog` are not even a sublist of the positions of `cif2` …
+example : ¬ (fakeLog.map (·.2)).Sublist ((Spec.TraversalPos.fullTraversalH cif2).map (·.2)) := by decide +kernel
+theorem fake_not_positional : ¬ fakeLog.Sublist (Spec.TraversalPos.fullTraversalH cif2) := by
+  intro h
+  exact absurd (h.map (·.2)) (by decide +kernel)
+-- … and conjunct 4 (no (kind, position) twice among the delivered callbacks): `fakeLog` hands out packet position [0,0] 0 1 twice
+example : ¬ (fakeLog.map (fun x => (Spec.TraversalPos.kind x.1, x.2))).Nodup := by decide +kernel
+-- so `fakeLog` is not the log of any walk of `cif2`
+example (p : Prog) : (walkH p cif2).1 ≠ fakeLog := by
+  intro h
+  exact fake_not_positional (h ▸ (C14_handles_are_elements p cif2).1)
 
 end CifModel.ReviewRC14
